@@ -90,8 +90,14 @@ LayoutCases  == UNION { UNION { UNION {
                   : g2 \in Gaps(Templates[i])} : g1 \in Gaps(Templates[i])} : i \in 1..Len(Templates)}
 VariantCases == {[kind |-> "variant", canon |-> v[1], text |-> v[2]] : v \in Variants}
 NameCases    == {[kind |-> "name", name |-> n] : n \in Names}
+\* the word and symbol spellings of and / or / not evaluate identically: same value or same failure, same bindings made by the
+\* operands (both operands are always evaluated), on scalars, lists (broadcast) and non-booleans
+SpellOps  == {<<"&&", "and">>, <<"||", "or">>}
+SpellVals == {"true", "false", "null", "1", "[true, false]", "[false]", "[]", "\"s\"", "(z = true)", "(z = [false, true])", "nosuch", "[[true], false]"}
+SpellCases == {[kind |-> "spelling", sym |-> p[1], word |-> p[2], a |-> x, b |-> y] : p \in SpellOps, x \in SpellVals, y \in SpellVals}
+              \cup {[kind |-> "spelling", sym |-> "!", word |-> "not ", a |-> "", b |-> y] : y \in SpellVals}
 
-Init == c \in FlatCases \cup LayoutCases \cup VariantCases \cup NameCases
+Init == c \in FlatCases \cup LayoutCases \cup VariantCases \cup NameCases \cup SpellCases
 Next == UNCHANGED c
 Spec == Init /\ [][Next]_c
 
